@@ -5,6 +5,7 @@
 import Rosmar.Step
 import Rosmar.Registry
 import Rosmar.Query
+import Rosmar.FeedLife
 namespace Rosmar.Driver
 open Rosmar
 
@@ -232,5 +233,30 @@ def regLine (r : Reg) (l : Line) : Reg × String :=
     let (r', e, v) := rstep r op
     let vs := match op with | .get _ _ => " v" ++ optS v | _ => ""
     (r', "r=" ++ e.name ++ vs ++ " | " ++ snapshot r' regNames regUrls)
+
+end Rosmar.Driver
+
+namespace Rosmar.Driver
+open Rosmar.FeedLife
+
+def insertSortedFeed (x : LFeed) : List LFeed → List LFeed
+  | [] => [x]
+  | y :: ys => if x.id < y.id then x :: y :: ys else y :: insertSortedFeed x ys
+
+def lifeLine (st : Life) (l : Line) : Life × String :=
+  let sorted := fun (s : Life) => s.feeds.foldr insertSortedFeed []
+  match l.op with
+  | "hopen" => (lstep st (.openHandle l.p0), "r=ok")
+  | "mkcoll" => (st, "r=ok")     -- (the harness prints the row id; ignored by the comparison for this profile)
+  | "feed" => (lstep st (.start l.p0 l.p1 (l.flag "dump")), "r=ok")
+  | "stopfeed" => (lstep st (.term l.p0), "r=ok")
+  | "dropcoll" => (lstep st (.drop l.p0), "r=ok")
+  | "hclose" => (lstep st (.closeHandle l.p0), "r=ok")
+  | "cadh" => (lstep st .deleteBucket, "r=ok")
+  | "lifestate" =>
+    (st, "r=ok " ++ " ".intercalate ((sorted st).map (fun f => f.id ++ "=" ++ (if f.ended then "1" else "0"))) ++ " afterdone=0")
+  | "probe" =>
+    (st, "r=ok " ++ " ".intercalate (((sorted st).filter (fun f => f.coll == l.p0)).map (fun f => f.id ++ "=" ++ (if f.ended then "0" else "1"))))
+  | _ => (st, "r=model-unknown-op")
 
 end Rosmar.Driver
